@@ -83,6 +83,9 @@ pub struct Profile {
     pub corrupt_permille: u64,
     /// fault-free, equal stakes, constant equal link latency: one voting round is deterministic
     pub lockstep: bool,
+    /// C18 in the cluster: no Byzantine nodes or crashes, one long total partition (every node on its
+    /// own) so that every node's standstill detection must fire, repeatedly, until the heal
+    pub standstill: bool,
 }
 
 impl Profile {
@@ -104,6 +107,7 @@ impl Profile {
             forger: false,
             corrupt_permille: 0,
             lockstep: false,
+            standstill: false,
         }
     }
 }
@@ -315,6 +319,22 @@ pub fn draw_cfg(p: &Profile) -> ClusterCfg {
                 }
             }
         }
+    }
+    let mut duration_ms = duration_ms;
+    if p.standstill {
+        // replace the drawn schedule: a quiet start, then everybody alone for 12-30 s, then the heal
+        faults.clear();
+        let at_ms = 2_000 + kernel::choose(CFG, 8) * 500;
+        let len = 12_000 + kernel::choose(CFG, 37) * 500;
+        let group: Vec<u8> = match kernel::choose(CFG, 3) {
+            // everybody alone, or two sides that are both short of 60 %
+            0 | 1 => (0..n).map(|i| i as u8).collect(),
+            _ => (0..n).map(|i| (i % 2) as u8).collect(),
+        };
+        net.partition_hold = false;
+        net.loss_ppm = 0;
+        faults.push(FaultEvent::Partition { at_ms, heal_ms: at_ms + len, group });
+        duration_ms = at_ms + len + 4_000;
     }
     faults.sort_by_key(FaultEvent::at);
 
